@@ -32,17 +32,25 @@ class C11(core.Property):
                    "to_exact", "roundtrip", "from_clamp_eol", "from_clamp_eof", "from_arg_unchanged",
                    "to_arg_unchanged", "spec_from_valid", "spec_from_clamp", "C11_partial",
                    "C11_refuted_utf8", "C11_refuted_eof", "C11_refuted", "C11_reference_agrees",
-                   "C11_nonvacuous"]
-    modules = ["Proofs.CodecProofs", "Props.C11"]
+                   "C11_nonvacuous",
+                   "sum_units_concat", "converted_position", "offset_past_eof", "offset_on_line", "offset_exact",
+                   "swf_spec", "run_at_model", "word_exact", "word_shape",
+                   "C11_offset_partial", "C11_offset_utf32", "C11_offset_utf16", "C11_offset_returns",
+                   "C11_offset_refuted_units", "C11_offset_refuted_eof", "C11_offset_refuted",
+                   "C11_word_partial", "C11_word_utf16_utf32", "C11_word_refuted_utf8", "C11_word_refuted",
+                   "C11_queries_nonvacuous"]
+    modules = ["Proofs.CodecProofs", "Proofs.DocQueryProofs", "Props.C11"]
     coq_targets = ["Props/C11.vo", "Extract/ExtractC11.vo"]
     rule = ("width cases: scalar value x encoding (all boundaries + seeded sample; thorough: all 1 112 064); "
             "string cases: every string up to length L over the class alphabet x every line 0..n+1 x every "
             "character 0..units+2 x 3 encodings, plus seeded random longer lines; non-trivial = the text has a "
-            "character >= 0x80 or the position is past the end of its line / of the document or inside a character")
+            "character >= 0x80 or the position is past the end of its line / of the document or inside a character; "
+            "offset/word cases: TextDocument.offset_at_position / word_at_position on every text up to length 3 (thorough 4) over "
+            "{a, _, 1, space, U+E9, U+1F60B, LF} x every line 0..n+1 x every character 0..units+2 x 3 encodings + seeded longer texts")
     trusted_base = ["Coq 8.16.1 kernel incl. vm_compute (refutation witnesses, Example)",
                     "extraction with ExtrOcamlBasic only + ocaml/c11_driver.ml + conv_io/conv_n",
                     "harness/c11.py (generators, canonicalisation)",
-                    "modelled not verified: str.replace/rstrip/slicing, re findall of RE_LINE, ord()"]
+                    "modelled not verified: str.replace/rstrip/slicing, re findall of RE_LINE / RE_START_WORD / RE_END_WORD, ord()"]
     assumptions = ["positions have non-negative line/character (LSP uinteger)",
                    "a Python str is a list of code points 0..0x10FFFF"]
 
@@ -90,6 +98,31 @@ class C11(core.Property):
                             for k in range(len(text) + 2):
                                 cases.append({"k": "tot", "e": e, "text": text, "l": l, "ch": k, "es": 1})
                 cases.append({"k": "lines", "text": text})
+        # TextDocument.offset_at_position / word_at_position: every text up to length LQ over the word
+        # alphabet x every line 0..n+1 x every character 0..units+2 x 3 encodings, + longer random texts
+        QA = [0x61, 0x5F, 0x31, 0x20, 0xE9, 0x1F60B, 0x0A]
+        LQ = 3 if chk.quick else 4
+        for n in range(LQ + 1):
+            for t in itertools.product(QA, repeat=n):
+                text = list(t)
+                nl = self._nlines(text)
+                for e in ENCS:
+                    maxu = max(true_units(e, l) for l in self._split(text)) + 2 if text else 2
+                    for l in range(nl + 2):
+                        for ch in range(maxu + 1):
+                            cases.append({"k": "offset", "e": e, "text": text, "l": l, "ch": ch})
+                            cases.append({"k": "word", "e": e, "text": text, "l": l, "ch": ch})
+        qpool = [0x61, 0x62, 0x5A, 0x5F, 0x30, 0x39, 0x20, 0x2D, 0x2E, 0xE9, 0x20AC, 0x1F60B, 0x40, 0x5B, 0x60, 0x7B, 0x2F, 0x3A]
+        for _ in range(chk.n(1500, 20000)):
+            text = []
+            for _l in range(rng.randint(0, 4)):
+                text += [rng.choice(qpool) for _ in range(rng.randint(0, 12))] + rng.choice([[10], [13, 10], [13], [10]])
+            if rng.random() < 0.6:
+                text += [rng.choice(qpool) for _ in range(rng.randint(0, 12))]
+            e = rng.choice(ENCS)
+            l = rng.randint(0, self._nlines(text) + 1)
+            ch = rng.choice([rng.randint(0, 16), rng.randint(0, 16), rng.randint(0, 40), 2 ** 31 - 1])
+            cases.append({"k": rng.choice(["offset", "word"]), "e": e, "text": text, "l": l, "ch": ch})
         # explicit line lists (as user code may pass), longer random lines, ranges, huge positions
         pool = [0x61, 0x62, 0xE9, 0x20AC, 0x1F60B, 0x10000, 0xFFFF, 0x7F, 0x80]
         terms = [[], [10], [13], [13, 10]]
@@ -135,6 +168,35 @@ class C11(core.Property):
                 i += 1
         return n + (1 if text and text[-1] not in (10, 13) else 0)
 
+    @staticmethod
+    def _last_line(text):
+        """the last line as TextDocument.lines has it (with its terminator)"""
+        i = len(text)
+        if i and text[i - 1] == 10:
+            i -= 1
+            if i and text[i - 1] == 13:
+                i -= 1
+        elif i and text[i - 1] == 13:
+            i -= 1
+        while i and text[i - 1] not in (10, 13):
+            i -= 1
+        return text[i:]
+
+    @staticmethod
+    def _split(text):
+        """LSP line bodies (without terminators)"""
+        out, cur, i = [], [], 0
+        while i < len(text):
+            c = text[i]
+            if c == 13 and i + 1 < len(text) and text[i + 1] == 10:
+                out.append(cur); cur = []; i += 2
+            elif c in (10, 13):
+                out.append(cur); cur = []; i += 1
+            else:
+                cur.append(c); i += 1
+        out.append(cur)
+        return out
+
     # ---------------- implementation ----------------
     def run_impl(self, chk, cases):
         from lsprotocol import types
@@ -147,6 +209,7 @@ class C11(core.Property):
         scodecs = {e: PositionCodec(encoding=str(kind[e].value)) for e in ENCS}
         tostr = lambda s: "".join(map(chr, s))
         lines_cache = {}
+        doc_cache = {}
         def doc_lines(text):
             key = tuple(text)
             if key not in lines_cache:
@@ -185,6 +248,20 @@ class C11(core.Property):
                     r = (cd.position_from_client_units if k.startswith("from") else cd.position_to_client_units)(lines, p)
                     assert lines == before, "lines argument modified"
                     out.append([r.line, r.character, p.line, p.character])
+                elif k in ("offset", "word"):
+                    key = (c["e"], tuple(c["text"]))
+                    if key not in doc_cache:
+                        if len(doc_cache) > 20000:
+                            doc_cache.clear()
+                        doc_cache[key] = TextDocument("file:///c11.txt", tostr(c["text"]),
+                                                      position_codec=codecs[c["e"]])
+                    doc = doc_cache[key]
+                    p = types.Position(line=c["l"], character=c["ch"])
+                    if k == "offset":
+                        out.append([doc.offset_at_position(p)])
+                    else:
+                        out.append([ord(x) for x in doc.word_at_position(p)])
+                    assert (p.line, p.character) == (c["l"], c["ch"]), "position argument modified"
                 elif k in ("rfrom", "rto"):
                     lines = [tostr(l) for l in c["lines"]]
                     rg = types.Range(start=types.Position(c["l"], c["ch"]), end=types.Position(c["l2"], c["ch2"]))
@@ -207,7 +284,7 @@ class C11(core.Property):
             return f"units {c['e']} {enc_str(c['s'])}"
         if k == "lines":
             return f"lines {enc_str(c['text'])}"
-        if k in ("fromt", "tot"):
+        if k in ("fromt", "tot", "offset", "word"):
             return f"{k} {c['e']} {enc_str(c['text'])} {c['l']} {c['ch']}"
         if k in ("from", "to"):
             return f"{k} {c['e']} {enc_lines(c['lines'])} {c['l']} {c['ch']}"
@@ -227,6 +304,24 @@ class C11(core.Property):
             for _ in range(n):
                 m = next(it); ls.append([next(it) for _ in range(m)])
             return {"M": ls, "S": None, "guard": True}
+        if k == "offset":
+            m, sd, so, gw, gu = v
+            klass = None
+            if sd and not (gw and gu):
+                past = c["l"] >= self._nlines(c["text"])
+                if not gw:
+                    klass = "F17-utf8-widths"
+                elif past and any(x > 0xFFFF for x in self._last_line(c["text"])):
+                    klass = "F16p-eof-unit-count"
+                else:
+                    klass = "F31-offset-mixed-units"
+            return {"M": [m], "S": [so] if sd else None, "guard": bool(sd and gw and gu), "klass": klass}
+        if k == "word":
+            it = iter(v); gw = next(it); sd = next(it)
+            m = [next(it) for _ in range(next(it))]
+            w = [next(it) for _ in range(next(it))]
+            return {"M": m, "S": w if sd else None, "guard": bool(sd and gw),
+                    "klass": "F17-utf8-widths" if (sd and not gw) else None}
         if k in ("from", "to", "fromt", "tot"):
             rl, rc, al, ac, sd, sl, sc, g = v
             M = [rl, rc, al, ac]
@@ -271,3 +366,42 @@ class C11(core.Property):
 
 
 PROPERTY = C11
+
+
+# ---------------------------------------------------------------------------------------------
+# Second tie for the pure core (appended; harness/gen_ast.py, coq/Base/PyMini.v, Proofs/AstCodecEquiv.v):
+# the SOURCE TEXT of is_char_beyond_multilingual_plane, utf16_unit_offset, client_num_units,
+# position_from_client_units and position_to_client_units is translated on every run by a fail-closed
+# AST translator into a deep embedding, and the kernel re-checks that the translation computes exactly
+# Model/Codec.v for all inputs.  An edit to those functions is thereby seen by the proof side directly;
+# the obligations are imported late ("Module::theorem", core.check_obligations) so that a broken
+# translator tie does not hide the other obligations.
+import sys as _sys
+_sys.path.insert(0, os.path.dirname(os.path.abspath(__file__)))
+import gen_c11 as _gen_c11
+
+_AST_MOD = "Proofs.AstCodecEquiv"
+C11.obligations = list(C11.obligations) + [_AST_MOD + "::" + n for n in (
+    "ast_is_char_equiv", "ast_utf16_unit_offset_equiv", "ast_client_num_units_equiv",
+    "ast_position_from_equiv", "ast_position_to_equiv", "ast_codec_equiv_enum", "ast_from_example")]
+C11.coq_targets = list(C11.coq_targets) + ["Proofs/AstCodecEquiv.vo"]
+C11.trusted_base = list(C11.trusted_base) + [
+    "translator tie: harness/gen_ast.py (Python ast -> PyMini, fail-closed) and the PyMini semantics "
+    "coq/Base/PyMini.v (hand-written meaning of the Python subset; primitives shared with Base/PyStr.v)"]
+_prev_regenerate = getattr(C11, "regenerate", None)
+
+
+def _regenerate(self, chk):
+    if _prev_regenerate is not None:
+        _prev_regenerate(self, chk)
+    # the model, its theorems and the extraction do not depend on the translation: build them first so
+    # that the differential search still runs when the translator tie is what broke
+    core.coq_make(["Props/C11.vo", "Extract/ExtractC11.vo"])
+    # translate and compile under the build lock: coq/Gen is shared by concurrent checks that may run
+    # against different trees
+    with core._Lock("coq"):
+        _gen_c11.main()
+        core._coq_make(["Proofs/AstCodecEquiv.vo"])
+
+
+C11.regenerate = _regenerate
